@@ -799,8 +799,36 @@ func genInline(p *packages.Package, s *inlSite, n int, src func(string) []byte) 
 	switch st := modeStmt.(type) {
 	case *ast.ReturnStmt:
 		if s.stmt == s.inner && nres > 0 {
-			mode = "direct"
-			retFmt = func(es string, _ []string, _ []ast.Expr) string { return "return " + es }
+			if len(st.Results) == 1 {
+				mode = "direct"
+				retFmt = func(es string, _ []string, _ []ast.Expr) string { return "return " + es }
+			} else if nres == 1 {
+				// `return X, h(..)`: the other results are free of calls and effects (findSites), they are written out
+				// next to the helper's result at each of its returns
+				var before, after []string
+				seen := false
+				for _, r := range st.Results {
+					if ast.Unparen(r) == ast.Expr(s.call) {
+						seen = true
+						continue
+					}
+					t := textOf(csrc, r.Pos(), r.End())
+					if seen {
+						after = append(after, t)
+					} else {
+						before = append(before, t)
+					}
+				}
+				if seen {
+					for _, r := range st.Results {
+						noteNames(r)
+					}
+					mode = "direct"
+					retFmt = func(es string, _ []string, _ []ast.Expr) string {
+						return "return " + strings.Join(append(append(append([]string{}, before...), es), after...), ", ")
+					}
+				}
+			}
 		}
 	case *ast.IfStmt:
 		if as, ok := s.inner.(*ast.AssignStmt); ok && (as.Tok == token.DEFINE || as.Tok == token.ASSIGN) && st.Else == nil && terminating(st.Body) && nres > 0 && len(as.Lhs) == nres {
